@@ -65,6 +65,11 @@
     decodes as a key of type 5.  go-cose v1 behaves the same (checked against /repo): the
     duplicate-label check of `MarshalCBOR` only covers `Params` against itself.  Accepted keys
     never have such parameters (`KeyRT.accepted_params`), so theorem 3 does not need it.
+  * `NoNilCoords k` (theorem 1; since repair e8483d3 of /repo): no EC2 / OKP coordinate is the
+    typed nil `[]byte(nil)`.  `validate` takes it for a byte string, `MarshalCBOR` writes `null`,
+    `UnmarshalCBOR` refuses a coordinate that is not a byte string —
+    `key_marshal_unmarshal_needs_no_nil_coords`.  Constructor-built and accepted keys never have
+    one (`noNilCoords_of_vals`, `accepted_noNilCoords`), so theorems 2 and 3 do not need it.
   * `KeySize k` (decidable; theorem 1): `k.params.length + 5 ≤ 131072`, the decoder's pair limit.
     A hypothesis of this kind is necessary (a larger map is emitted and then refused); the
     constant is not shown to be tight and no counterexample theorem is given (it would need a
@@ -1175,11 +1180,14 @@ theorem leftPad_len_gt (s : Nat) (x : Bytes) : ((leftPad s x).length > s) = (x.l
 def wirePbytes (k : Key) (n : Int) : Bytes :=
   if k.kty = 2 ∧ (n = -2 ∨ n = -3) then leftPad (curveSize k.crv) (k.pbytes n) else k.pbytes n
 
-/-- `validate` only looks at kty, alg, the curve (EC2 / OKP), and the lengths of the byte-string
-    parameters -1 … -4, in a way the EC2 coordinate padding does not disturb -/
+/-- `validate` only looks at kty, alg, the curve (EC2 / OKP), the lengths of the byte-string
+    parameters -1 … -4, in a way the EC2 coordinate padding does not disturb, and (since e8483d3)
+    the type class of the EC2 / OKP parameters -2 … -4: absent, byte string, boolean, other -/
 theorem validate_transfer (k k' : Key) (op : KOp) (hkty : k'.kty = k.kty) (halg : k'.alg = k.alg)
     (hcrv : k.kty = 1 ∨ k.kty = 2 → k'.crv = k.crv)
-    (hp : ∀ n : Int, -4 ≤ n → n < 0 → k'.pbytes n = wirePbytes k n) :
+    (hp : ∀ n : Int, -4 ≤ n → n < 0 → k'.pbytes n = wirePbytes k n)
+    (ht : k.kty = 1 ∨ k.kty = 2 → ∀ n : Int, -4 ≤ n → n < -1 → ∀ b,
+      k'.paramIsBstr n b = k.paramIsBstr n b) :
     k'.validate op = k.validate op := by
   have p1 := hp (-1) (by decide) (by decide)
   have p2 := hp (-2) (by decide) (by decide)
@@ -1189,15 +1197,21 @@ theorem validate_transfer (k k' : Key) (op : KOp) (hkty : k'.kty = k.kty) (halg 
   unfold Key.validate Key.deriveAlgorithm
   by_cases h2 : k.kty = 2
   · have hc := hcrv (Or.inr h2)
+    have t2 := ht (Or.inr h2) (-2) (by decide) (by decide) false
+    have t3 := ht (Or.inr h2) (-3) (by decide) (by decide) true
+    have t4 := ht (Or.inr h2) (-4) (by decide) (by decide) false
     rw [if_pos ⟨h2, Or.inl rfl⟩] at p2
     rw [if_pos ⟨h2, Or.inr rfl⟩] at p3
     rw [if_neg (fun h => by have := h.2; omega)] at p4
-    simp only [hkty, halg, hc, h2, if_true, p2, p3, p4, leftPad_len_zero, leftPad_len_gt]
+    simp only [hkty, halg, hc, h2, if_true, p2, p3, p4, t2, t3, t4, leftPad_len_zero,
+      leftPad_len_gt]
   · rw [if_neg (fun h => h2 h.1)] at p1 p2 p3 p4
     by_cases h1 : k.kty = 1
     · have hc := hcrv (Or.inl h1)
-      simp only [hkty, halg, hc, h1, p2, p4, show ((1 : Int) = 2) = False from by decide, if_false,
-        if_true]
+      have t2 := ht (Or.inl h1) (-2) (by decide) (by decide) false
+      have t4 := ht (Or.inl h1) (-4) (by decide) (by decide) false
+      simp only [hkty, halg, hc, h1, p2, p4, t2, t4, show ((1 : Int) = 2) = False from by decide,
+        if_false, if_true]
     · simp only [hkty, halg, h2, h1, p1, if_false]
 
 /-! ## F. assembling the round trip -/
@@ -1371,9 +1385,47 @@ theorem KeyMap.normEntry {g : GoMap} (hkm : KeyMap g) : KeyMap (g.map kNormEntry
   simp only [kNormEntry, (hkm e0 he0).1.normVal_eq]
   exact ⟨(hkm e0 he0).1, kNorm_kVal (hkm e0 he0).2⟩
 
+/-- no EC2 / OKP coordinate is a typed-nil `[]byte`: `Key.validate` takes `[]byte(nil)` for a byte
+    string (an absent one), `MarshalCBOR` writes it as `null`, and `UnmarshalCBOR` refuses a `null`
+    coordinate since e8483d3 — see `key_marshal_unmarshal_needs_no_nil_coords` -/
+def NoNilCoords (k : Key) : Prop :=
+  k.kty = 1 ∨ k.kty = 2 → ∀ n : Int, -4 ≤ n → n < -1 → k.params.lookup (lbl n) ≠ some .bytesNil
+
+/-- the type class `paramIsBstr` tests survives serialisation and parsing, a typed-nil `[]byte`
+    (which comes back as `nil`) excepted -/
+theorem paramIsBstr_wire (k k' : Key) (n : Int) (hn : n < -1) (b : Bool)
+    (hnn : k.params.lookup (lbl n) ≠ some .bytesNil)
+    (hl : k'.params.lookup (lbl n) = wireParam k (lbl n)) :
+    k'.paramIsBstr n b = k.paramIsBstr n b := by
+  have hne : (lbl (-1)).keyEq (lbl n) = false := by
+    rw [C14.keyEq_lbl_lbl]; simp; omega
+  unfold Key.paramIsBstr
+  rw [hl, wireParam, wireLookup_neg k n (by omega)]
+  have hrt : ∀ v, retypeVal k.kty (lbl n) v = v := by
+    intro v; simp [retypeVal, hne]
+  cases hlk : k.params.lookup (lbl n) with
+  | none => by_cases hc : (k.kty = 2 ∧ (n = -2 ∨ n = -3)) <;> simp [hc]
+  | some v =>
+    have hv : v ≠ .bytesNil := fun h => hnn (by rw [hlk, h])
+    by_cases hc : (k.kty = 2 ∧ (n = -2 ∨ n = -3))
+    · simp only [if_pos hc, Option.map_some, hrt]
+      cases v <;> first | exact absurd rfl hv | rfl
+    · simp only [if_neg hc, Option.map_some, hrt]
+      cases v <;> first | exact absurd rfl hv | rfl
+
+/-- a key none of whose parameters is a typed-nil `[]byte` (every key built by the constructors,
+    every key the decoder returns) -/
+theorem noNilCoords_of_vals {k : Key} (h : ∀ e ∈ k.params, e.2 ≠ .bytesNil) : NoNilCoords k := by
+  intro _ n _ _ hl
+  unfold GoMap.lookup at hl
+  cases hf : k.params.find? (fun e => e.1.keyEq (lbl n)) with
+  | none => rw [hf] at hl; cases hl
+  | some e => rw [hf] at hl; exact h e (List.mem_of_find?_eq_some hf) (Option.some.inj hl)
+
 /-- MAIN (map level): `Key.UnmarshalCBOR` on the decoded form of the map `Key.MarshalCBOR`
     built returns a key with the same common fields and the parameters of `wireParam` -/
 theorem key_roundtrip_core (k : Key) (hk : KeyFlat k) (hd : ParamsDisjoint k)
+    (hnn : NoNilCoords k)
     (hv : k.validate .none = none) (m : GoMap) (hm : k.marshalMap = some m) :
     ∃ k', Key.ofMap ((sortEntries m).map kNormEntry) = .ok k' ∧
       k'.kty = k.kty ∧ k'.id = k.id ∧ k'.alg = k.alg ∧ k'.ops = k.ops ∧ k'.baseIV = k.baseIV ∧
@@ -1486,7 +1538,10 @@ theorem key_roundtrip_core (k : Key) (hk : KeyFlat k) (hd : ParamsDisjoint k)
     exact C14.crv_of_lookup k' _ hl
   have hv' : k'.validate .none = none := by
     rw [validate_transfer k k' .none e1 e3 hcrv
-      (fun n h1 h2 => hpb n (int64Range_small n (by omega) (by omega)) h2)]
+      (fun n h1 h2 => hpb n (int64Range_small n (by omega) (by omega)) h2)
+      (fun h12 n h1 h2 b => paramIsBstr_wire k k' n h2 b (hnn h12 n h1 h2)
+        (hplk (lbl n) (keyLabel_lbl n (int64Range_small n (by omega) (by omega))).normalize
+          (not_common_neg n (by omega))))]
     exact hv
   have hk'eq : k' = { kty := k.kty, id := k.id, alg := k.alg, ops := k.ops, baseIV := k.baseIV,
                       params := k'.params } := by
@@ -1593,6 +1648,7 @@ theorem wireParam_eq (k : Key) (l : GoVal) (hc : ¬ isCommon l) :
     the generic decoder types it, the EC2 coordinates x / y left-padded to the curve size, the
     curve of EC2 / OKP keys retyped to `Curve`. -/
 theorem key_marshal_unmarshal (k : Key) (hk : KeyFlat k) (hs : KeySize k) (hd : ParamsDisjoint k)
+    (hnn : NoNilCoords k)
     (hv : k.validate .none = none) (b : Bytes) (hb : k.marshal = .ok b) :
     ∃ k', Key.unmarshal b = .ok k' ∧
       k'.kty = k.kty ∧ k'.id = k.id ∧ k'.alg = k.alg ∧ k'.ops = k.ops ∧ k'.baseIV = k.baseIV ∧
@@ -1604,7 +1660,7 @@ theorem key_marshal_unmarshal (k : Key) (hk : KeyFlat k) (hs : KeySize k) (hd : 
   obtain ⟨m, hm, rfl⟩ := (marshal_bytes hk b).mp hb
   obtain ⟨hkm, hok, hlen⟩ := marshalMap_inv hk hm
   obtain ⟨k', h0, h1, h2, h3, h4, h5, _, h7, h8, h9, h10, h11, h12⟩ :=
-    key_roundtrip_core k hk hd hv m hm
+    key_roundtrip_core k hk hd hnn hv m hm
   refine ⟨k', ?_, h1, h2, h3, h4, h5, h7, h8, h9, h10, (C15.ofMap_inv _ k' h0).2.1, h11, h12⟩
   rw [unmarshal_bytes hkm.kmap hok (Nat.le_trans hlen hs)]
   exact h0
@@ -1612,11 +1668,12 @@ theorem key_marshal_unmarshal (k : Key) (hk : KeyFlat k) (hs : KeySize k) (hd : 
 /-- 1'. the same, for one parameter that is not an EC2 coordinate: it comes back under its label
     as the decoder types it (curve retyped) -/
 theorem key_param_roundtrip (k : Key) (hk : KeyFlat k) (hs : KeySize k) (hd : ParamsDisjoint k)
+    (hnn : NoNilCoords k)
     (hv : k.validate .none = none) (b : Bytes) (hb : k.marshal = .ok b) (k' : Key)
     (hu : Key.unmarshal b = .ok k') (l v : GoVal) (hm : (l, v) ∈ k.params)
     (hxy : k.kty = 2 → l ≠ lbl (-2) ∧ l ≠ lbl (-3)) :
     k'.params.lookup l = some (retypeVal k.kty l (kNorm v)) := by
-  obtain ⟨k'', hu', _, _, _, _, _, hplk, _⟩ := key_marshal_unmarshal k hk hs hd hv b hb
+  obtain ⟨k'', hu', _, _, _, _, _, hplk, _⟩ := key_marshal_unmarshal k hk hs hd hnn hv b hb
   rw [hu] at hu'
   cases hu'
   have hl := (hk.params _ hm).1.normalize
@@ -1743,8 +1800,13 @@ theorem ec2_key_wire_roundtrip (bits x y : Nat) (d : Option Nat) (k : Key)
   have h2 : k.kty = 2 := by rw [hkeq]
   obtain ⟨m, hm⟩ := keyFromEC_marshal_some bits x y d k hk
   have hb := marshal_of_marshalMap hflat hm
-  obtain ⟨k', hu, e1, e2, e3, e4, e5, _, _, hpb, hcr, hv', _, _⟩ :=
-    key_marshal_unmarshal k hflat hsize hdis hv _ hb
+  have hnn : NoNilCoords k := by
+    apply noNilCoords_of_vals
+    rw [hpar]
+    intro e he
+    cases d <;> simp [ecParams] at he <;> rcases he with rfl | rfl | rfl | rfl <;> simp
+  obtain ⟨k', hu, e1, e2, e3, e4, e5, hplk, _, hpb, hcr, hv', _, _⟩ :=
+    key_marshal_unmarshal k hflat hsize hdis hnn hv _ hb
   have q2 : k'.pbytes (-2) = fillBytes (curveSize (curveOfBits bits)) x := by
     rw [hpb (-2) (by decide) (by decide), wirePbytes, if_pos ⟨h2, Or.inl rfl⟩, hpx, hcrv,
       leftPad_ec2Coordinate _ _ hxlt]
@@ -1768,8 +1830,12 @@ theorem ec2_key_wire_roundtrip (bits x y : Nat) (d : Option Nat) (k : Key)
     | none => rfl
     | some dv => simp only [Option.map_some, Option.getD_some, os2ip_natBytes]
   · intro op
+    have hplk' : ∀ n : Int, -4 ≤ n → n < -1 → k'.params.lookup (lbl n) = wireParam k (lbl n) :=
+      fun n h1 h0 => hplk (lbl n) (keyLabel_lbl n (by unfold int64Range; omega)).normalize
+        (not_common_neg n (by omega))
     exact validate_transfer k k' op e1 e3 (fun _ => hcr (Or.inr h2))
       (fun n h1 h0 => hpb n (by unfold int64Range; omega) h0)
+      (fun h12 n h1 h0 b => paramIsBstr_wire k k' n h0 b (hnn h12 n h1 h0) (hplk' n h1 h0))
 
 /-- 2a. converting back: `PublicKey()` succeeds on every EC2 key built from a Go key, both on the
     in-memory key and on the key re-parsed from its serialisation — whatever the coordinates.  In
@@ -1913,8 +1979,13 @@ theorem okp_key_wire_roundtrip (x : Bytes) (d : Option Bytes) (k : Key)
       ldis 5 (by decide)⟩
   obtain ⟨m, hm⟩ := marshalMap_some k hflat.params.normal (by rw [hpar]; exact edParams_labelsOK x d)
   have hb := marshal_of_marshalMap hflat hm
+  have hnn : NoNilCoords k := by
+    apply noNilCoords_of_vals
+    rw [hpar]
+    intro e he
+    cases d <;> simp [edParams] at he <;> rcases he with rfl | rfl | rfl <;> simp
   obtain ⟨k', hu, e1, e2, e3, e4, e5, _, _, hpb, hcr, hv', _, _⟩ :=
-    key_marshal_unmarshal k hflat hsize hdis hv _ hb
+    key_marshal_unmarshal k hflat hsize hdis hnn hv _ hb
   have hne : ¬ (k.kty = 2 ∧ ((-2 : Int) = -2 ∨ (-2 : Int) = -3)) := fun h => by
     rw [h1] at h; exact absurd h.1 (by decide)
   have hne4 : ¬ (k.kty = 2 ∧ ((-4 : Int) = -2 ∨ (-4 : Int) = -3)) := fun h => by
@@ -2140,6 +2211,83 @@ theorem accepted_params (b : Bytes) (k : Key) (h : Key.unmarshal b = .ok k) :
     exact ⟨hc 1 (by decide), hc 2 (by decide), hc 3 (by decide), hc 4 (by decide),
       hc 5 (by decide)⟩
 
+/-- the generic decoder never yields a typed-nil `[]byte` (`null` decodes to an untyped nil) -/
+theorem decodeAny_ne_bytesNil (w : Wire) (v : GoVal) (h : decodeAny w = .ok v) :
+    v ≠ .bytesNil := by
+  intro hv
+  subst hv
+  cases w with
+  | uint _ n => unfold decodeAny at h; split at h <;> cases h
+  | nint _ n => unfold decodeAny at h; split at h <;> cases h
+  | bstr _ b => unfold decodeAny at h; cases h
+  | tstr _ b => unfold decodeAny at h; split at h <;> cases h
+  | tag _ _ _ => simp [decodeAny] at h
+  | prim hw n =>
+    cases hw <;> simp only [decodeAny] at h
+    · repeat' split at h
+      all_goals cases h
+    all_goals cases h
+  | arr _ xs =>
+    unfold decodeAny at h
+    cases hl : decodeList xs <;> simp [hl] at h
+  | map _ kvs =>
+    unfold decodeAny at h
+    cases hl : decodePairs kvs [] <;> simp [hl] at h
+
+theorem decodePairs_no_bytesNil : ∀ (kvs : List (Wire × Wire)) (acc out : GoMap),
+    decodePairs kvs acc = .ok out → (∀ e ∈ acc, e.2 ≠ .bytesNil) → ∀ e ∈ out, e.2 ≠ .bytesNil
+  | [], acc, out, h, hacc => by
+    unfold decodePairs at h; cases h
+    intro e he; exact hacc e (List.mem_reverse.mp he)
+  | (k, v) :: r, acc, out, h, hacc => by
+    unfold decodePairs at h
+    cases hk : decodeAny k with
+    | ok key =>
+      simp only [hk] at h
+      split at h
+      · cases h
+      · cases h
+      · split at h
+        · cases h
+        · cases hv : decodeAny v with
+          | ok value =>
+            have hvm := decodeAny_ne_bytesNil v value hv
+            simp only [hv] at h
+            split at h
+            · cases h
+            · refine decodePairs_no_bytesNil r _ out h ?_
+              intro e he
+              rcases List.mem_cons.mp he with rfl | he
+              · exact hvm
+              · exact hacc e he
+          | err e => simp [hv] at h
+          | panic => simp [hv] at h
+          | unmodelled => simp [hv] at h
+    | err e => simp [hk] at h
+    | panic => simp [hk] at h
+    | unmodelled => simp [hk] at h
+
+/-- no parameter of an accepted key is a typed-nil `[]byte` -/
+theorem accepted_no_bytesNil (b : Bytes) (k : Key) (h : Key.unmarshal b = .ok k) :
+    ∀ e ∈ k.params, e.2 ≠ .bytesNil := by
+  obtain ⟨w, kvs, tmp, _, hd, ho⟩ := unmarshal_inv b k h
+  obtain ⟨hp, _⟩ := ofMap_params tmp k ho
+  have hpe := keyParams_inv _ _ _ hp
+  have hno := decodePairs_no_bytesNil kvs [] tmp hd (by intro e he; cases he)
+  intro e he
+  rw [hpe] at he
+  obtain ⟨e0, he0, rfl⟩ := List.mem_map.mp he
+  have h0 := hno e0 (mem_erase5 he0)
+  simp only [retypeEntry, retypeVal]
+  split
+  · split
+    · intro hc; cases hc
+    · exact h0
+  · exact h0
+
+theorem accepted_noNilCoords (b : Bytes) (k : Key) (h : Key.unmarshal b = .ok k) :
+    NoNilCoords k := noNilCoords_of_vals (accepted_no_bytesNil b k h)
+
 /-- two maps with normalised, pairwise distinct labels that agree on every lookup hold the same
     entries -/
 theorem perm_of_lookup_eq {g g' : GoMap} (hok : LabelsOK g)
@@ -2303,7 +2451,7 @@ theorem reencode_core (b : Bytes) (k : Key) (hu : Key.unmarshal b = .ok k) (hf :
   obtain ⟨m, hm⟩ := marshalMap_some k hf.params.normal hokp
   obtain ⟨hkm, hok, hlen⟩ := marshalMap_inv hf hm
   obtain ⟨k2, h0, e1, e2, e3, e4, e5, e6, hplk, hplc, hpb, hcrv, hf2, _⟩ :=
-    key_roundtrip_core k hf hd hv m hm
+    key_roundtrip_core k hf hd (accepted_noNilCoords b k hu) hv m hm
   have hb := C14.marshal_of_marshalMap hf hm
   have hu2 : Key.unmarshal (kMapWire m).bytes = .ok k2 := by
     rw [unmarshal_bytes hkm.kmap hok (hs m hm)]; exact h0
@@ -2833,6 +2981,96 @@ theorem accepted_marshals (b : Bytes) (k : Key) (hu : Key.unmarshal b = .ok k)
   obtain ⟨b', h, _⟩ := reencode_idempotent b k hu hvals
   exact ⟨b', h⟩
 
+/-- a value found under a label is a parameter of the key -/
+theorem mem_of_lookup {h : GoMap} {l v : GoVal} (hl : h.lookup l = some v) :
+    ∃ e ∈ h, e.2 = v := by
+  unfold GoMap.lookup at hl
+  cases hf : h.find? (fun e => e.1.keyEq l) with
+  | none => rw [hf] at hl; cases hl
+  | some e => rw [hf] at hl; exact ⟨e, List.mem_of_find?_eq_some hf, Option.some.inj hl⟩
+
+/-- MAIN (repair e8483d3), on accepted keys: every COSE_Key `UnmarshalCBOR` accepts with key type
+    EC2 has EVERY PRESENT x (-2) and d (-4) a byte string and every present y (-3) a byte string
+    or a boolean, each byte string within the curve's size; with key type OKP every present x and
+    d is a byte string of 32 bytes (or empty).  "Coordinates within the curve's size" thus speaks
+    about every coordinate on the wire, not only about those that happen to be byte strings:
+    before the repair `a4 01 02 20 01 21 78 64 …` (x a 100-character text string) was accepted. -/
+theorem accepted_coords (data : Bytes) (k : Key) (h : Key.unmarshal data = .ok k) :
+    (k.kty = 2 →
+      (∀ v, k.params.lookup (lbl (-2)) = some v →
+        ∃ b, v = .bytes b ∧ (curveSize k.crv > 0 → b.length ≤ curveSize k.crv)) ∧
+      (∀ v, k.params.lookup (lbl (-3)) = some v →
+        (∃ b, v = .bytes b ∧ (curveSize k.crv > 0 → b.length ≤ curveSize k.crv)) ∨
+          ∃ s, v = .bool s) ∧
+      (∀ v, k.params.lookup (lbl (-4)) = some v →
+        ∃ b, v = .bytes b ∧ (curveSize k.crv > 0 → b.length ≤ curveSize k.crv))) ∧
+    (k.kty = 1 →
+      (∀ v, k.params.lookup (lbl (-2)) = some v →
+        ∃ b, v = .bytes b ∧ (b.length = 0 ∨ b.length = 32)) ∧
+      (∀ v, k.params.lookup (lbl (-4)) = some v →
+        ∃ b, v = .bytes b ∧ (b.length = 0 ∨ b.length = 32))) := by
+  obtain ⟨_, _, hv⟩ := accepted_params data k h
+  have hnil := accepted_no_bytesNil data k h
+  have hne : ∀ (l v : GoVal), k.params.lookup l = some v → v ≠ .bytesNil := by
+    intro l v hl
+    obtain ⟨e, he, rfl⟩ := mem_of_lookup hl
+    exact hnil e he
+  constructor
+  · intro h2
+    obtain ⟨hx, hy, hd⟩ := validate_ec2_coords k .none hv h2
+    refine ⟨?_, ?_, ?_⟩
+    · intro v hl
+      rcases hx v hl with hb | hn | ⟨hf, _⟩
+      · exact hb
+      · exact absurd hn (hne _ v hl)
+      · cases hf
+    · intro v hl
+      rcases hy v hl with hb | hn | ⟨_, hs⟩
+      · exact Or.inl hb
+      · exact absurd hn (hne _ v hl)
+      · exact Or.inr hs
+    · intro v hl
+      rcases hd v hl with hb | hn | ⟨hf, _⟩
+      · exact hb
+      · exact absurd hn (hne _ v hl)
+      · cases hf
+  · intro h1
+    obtain ⟨hx, hd⟩ := validate_okp_coords k .none hv h1
+    refine ⟨?_, ?_⟩
+    · intro v hl
+      rcases hx v hl with hb | hn
+      · exact hb
+      · exact absurd hn (hne _ v hl)
+    · intro v hl
+      rcases hd v hl with hb | hn
+      · exact hb
+      · exact absurd hn (hne _ v hl)
+
+/-- … so for an accepted EC2 / OKP key the accessor `ParamBytes` loses nothing: a coordinate it
+    reads as empty is absent, an empty byte string, or (y only) the sign bit -/
+theorem accepted_pbytes_faithful (data : Bytes) (k : Key) (h : Key.unmarshal data = .ok k)
+    (h12 : k.kty = 2 ∨ k.kty = 1) (n : Int) (hn : n = -2 ∨ n = -4 ∨ (n = -3 ∧ k.kty = 2))
+    (v : GoVal) (hl : k.params.lookup (lbl n) = some v) :
+    v = .bytes (k.pbytes n) ∨ (n = -3 ∧ ∃ s, v = .bool s) := by
+  obtain ⟨hec, hokp⟩ := accepted_coords data k h
+  have fin : ∀ b, v = .bytes b → v = .bytes (k.pbytes n) := by
+    intro b hb
+    subst hb
+    rw [pbytes_of_bytes k n b hl]
+  rcases h12 with h2 | h1
+  · obtain ⟨hx, hy, hd⟩ := hec h2
+    rcases hn with rfl | rfl | ⟨rfl, _⟩
+    · obtain ⟨b, hb, _⟩ := hx v hl; exact Or.inl (fin b hb)
+    · obtain ⟨b, hb, _⟩ := hd v hl; exact Or.inl (fin b hb)
+    · rcases hy v hl with ⟨b, hb, _⟩ | hs
+      · exact Or.inl (fin b hb)
+      · exact Or.inr ⟨rfl, hs⟩
+  · obtain ⟨hx, hd⟩ := hokp h1
+    rcases hn with rfl | rfl | ⟨_, h2⟩
+    · obtain ⟨b, hb, _⟩ := hx v hl; exact Or.inl (fin b hb)
+    · obtain ⟨b, hb, _⟩ := hd v hl; exact Or.inl (fin b hb)
+    · omega
+
 end C15
 
 /-! ## the hypotheses are needed; non-vacuity -/
@@ -2927,8 +3165,8 @@ theorem key_marshal_unmarshal_needs_int64_labels :
     · exact ⟨show int64Range (-4) by decide, by simp [KVal]⟩
   · rw [labelsOK_iff_normLabels]
     simp [int8Key, normLabels, normalizeLabel, lbl, wrap64]
-  · simp [int8Key, Key.validate, Key.pbytes, paramBytes, Key.crv, paramInt, lookup_cons, lookup_nil,
-      Lk.getD, curveSize, lbl, GoVal.keyEq]
+  · simp [int8Key, Key.validate, Key.paramIsBstr, Key.pbytes, paramBytes, Key.crv, paramInt,
+      lookup_cons, lookup_nil, Lk.getD, curveSize, lbl, GoVal.keyEq]
   · refine ⟨?_, ?_, ?_, ?_, ?_⟩ <;>
       simp [int8Key, lookup_cons, lookup_nil, lbl, GoVal.keyEq]
   · unfold Key.marshal
@@ -2938,6 +3176,66 @@ theorem key_marshal_unmarshal_needs_int64_labels :
     simp [M, kNormEntry, normVal, kNorm, Key.ofMap, lookup_cons, lookup_nil, leftPad,
       paramBytes, keyParams, GoMap.erase, Key.validate, Key.pbytes, Key.crv, paramInt, Lk.getD, lbl,
       GoVal.keyEq, curveSize]
+
+/-- a P-256 key whose private scalar is the typed nil `[]byte(nil)` -/
+def nilDKey : Key :=
+  { kty := 2, params := [(lbl (-1), .crv 1), (lbl (-2), .bytes [1]), (lbl (-3), .bytes [1]),
+                         (lbl (-4), .bytesNil)] }
+
+/-- `NoNilCoords` is needed (since e8483d3): `validate` takes the typed nil `[]byte(nil)` under d
+    for a byte string (an empty one: the key is a valid public key), `MarshalCBOR` writes it as
+    `null` (`a5 01 02 20 01 21 58 20 … 22 58 20 … 23 f6`), and `UnmarshalCBOR` now refuses a d
+    that is not a byte string.  Before the repair the `null` was read back as "absent" and the
+    round trip went through.  /repo behaves the same (`enc key K(2;…;{…,i64:-4=bn})`: `redec=err`). -/
+theorem key_marshal_unmarshal_needs_no_nil_coords :
+    KeyFlat nilDKey ∧ KeySize nilDKey ∧ ParamsDisjoint nilDKey ∧ nilDKey.validate .none = none ∧
+    ¬ NoNilCoords nilDKey ∧
+    ∃ b, nilDKey.marshal = .ok b ∧ Key.unmarshal b = .err .other := by
+  let M : GoMap := [(lbl 1, .int .i64 2), (lbl (-1), .crv 1), (lbl (-2), .bytes (leftPad 32 [1])),
+    (lbl (-3), .bytes (leftPad 32 [1])), (lbl (-4), .bytesNil)]
+  have hm : nilDKey.marshalMap = some M := rfl
+  have hkm : KMap M := by
+    intro e he
+    simp only [M, List.mem_cons, List.not_mem_nil, or_false] at he
+    rcases he with rfl | rfl | rfl | rfl | rfl
+    · exact ⟨show int64Range 1 by decide, show int64Range 2 by decide⟩
+    · exact ⟨show int64Range (-1) by decide, show int64Range 1 by decide⟩
+    · exact ⟨show int64Range (-2) by decide, by simp [KVal, leftPad]⟩
+    · exact ⟨show int64Range (-3) by decide, by simp [KVal, leftPad]⟩
+    · exact ⟨show int64Range (-4) by decide, by simp [KVal]⟩
+  have hok : LabelsOK M := by
+    rw [labelsOK_iff_normLabels]
+    simp [M, normLabels, normalizeLabel, lbl, wrap64]
+  have hsrt : sortEntries M = M := by
+    apply List.mergeSort_of_pairwise
+    simp [M, valWire, intWire, lbl, Wire.bytes]
+    decide
+  have hflat : KeyFlat nilDKey := by
+    refine { kty := by decide, alg := by decide, id := ?_, ops := ?_, baseIV := ?_, params := ?_ }
+    · intro b hb; cases hb
+    · intro l hl; cases hl
+    · intro b hb; cases hb
+    · intro e he
+      simp only [nilDKey, List.mem_cons, List.not_mem_nil, or_false] at he
+      rcases he with rfl | rfl | rfl | rfl
+      · exact ⟨keyLabel_lbl _ (by decide), show int64Range 1 by decide⟩
+      · exact ⟨keyLabel_lbl _ (by decide), by simp [KVal]⟩
+      · exact ⟨keyLabel_lbl _ (by decide), by simp [KVal]⟩
+      · exact ⟨keyLabel_lbl _ (by decide), by simp [KVal]⟩
+  refine ⟨hflat, by simp [KeySize, nilDKey, maxElems], ?_, ?_, ?_, (kMapWire M).bytes, ?_, ?_⟩
+  · refine ⟨?_, ?_, ?_, ?_, ?_⟩ <;>
+      simp [nilDKey, lookup_cons, lookup_nil, lbl, GoVal.keyEq]
+  · simp [nilDKey, Key.validate, Key.paramIsBstr, Key.pbytes, paramBytes, Key.crv, paramInt,
+      lookup_cons, Lk.getD, curveSize, lbl, GoVal.keyEq]
+  · intro h
+    have := h (Or.inr rfl) (-4) (by decide) (by decide)
+    simp [nilDKey, lookup_cons, lbl, GoVal.keyEq] at this
+  · unfold Key.marshal
+    rw [hm]
+    exact marshalAny_k hkm
+  · rw [unmarshal_bytes hkm hok (by simp [M, maxElems]), hsrt]
+    simp [M, kNormEntry, normVal, kNorm, Key.ofMap, lookup_cons, lookup_nil, leftPad,
+      paramBytes, keyParams, GoMap.erase, Key.validate, Key.paramIsBstr, lbl, GoVal.keyEq]
 
 end C14
 
@@ -2955,8 +3253,8 @@ def exKey : Key :=
 theorem exKey_flat : KeyFlat exKey ∧ KeySize exKey ∧ ParamsDisjoint exKey ∧
     exKey.validate .none = none := by
   refine ⟨by decide, by decide, by decide, ?_⟩
-  · simp [exKey, Key.validate, Key.pbytes, paramBytes, Key.crv, paramInt, lookup_cons, lookup_nil,
-      keyEq_lbl_lbl, Lk.getD, curveSize, Key.deriveAlgorithm]
+  · simp [exKey, Key.validate, Key.paramIsBstr, Key.pbytes, paramBytes, Key.crv, paramInt,
+      lookup_cons, lookup_nil, keyEq_lbl_lbl, Lk.getD, curveSize, Key.deriveAlgorithm]
 
 /-- theorem 1 on `exKey`: it marshals, the bytes unmarshal, all common fields come back, and the
     coordinates come back at the full 32 bytes with the same value -/
@@ -2969,7 +3267,7 @@ example : ∃ b k', exKey.marshal = .ok b ∧ Key.unmarshal b = .ok k' ∧
     rw [labelsOK_iff_normLabels]
     simp [exKey, normLabels, normalizeLabel, lbl, wrap64])
   have hb := marshal_of_marshalMap hf hm
-  obtain ⟨k', hu, e1, e2, e3, e4, e5, _, _, hpb, hcr, _⟩ := key_marshal_unmarshal exKey hf hs hd hv _ hb
+  obtain ⟨k', hu, e1, e2, e3, e4, e5, _, _, hpb, hcr, _⟩ := key_marshal_unmarshal exKey hf hs hd (noNilCoords_of_vals (by simp [exKey])) hv _ hb
   have hc : exKey.crv = 1 := crv_of_lookup exKey 1 (by simp [exKey, lookup_cons, keyEq_lbl_lbl])
   have hx : exKey.pbytes (-2) = [1, 2, 3] :=
     pbytes_of_lookup exKey _ _ (by simp [exKey, lookup_cons, keyEq_lbl_lbl])
@@ -3000,7 +3298,7 @@ example : ∃ b k b' k2, exKey.marshal = .ok b ∧ Key.unmarshal b = .ok k ∧ k
     simp [exKey, normLabels, normalizeLabel, lbl, wrap64])
   have hb := marshal_of_marshalMap hf hm
   obtain ⟨k, hu, e1, e2, e3, e4, _, _, _, _, _, _, hf', hlen⟩ :=
-    key_marshal_unmarshal exKey hf hs hd hv _ hb
+    key_marshal_unmarshal exKey hf hs hd (noNilCoords_of_vals (by simp [exKey])) hv _ hb
   obtain ⟨b', h1, k2, h2, h3, f1, f2, f3, f4, _⟩ :=
     C15.reencode_idempotent _ k hu (fun e he => (hf'.params e he).2)
   exact ⟨_, k, b', k2, hb, hu, h1, h2, h3, by rw [f1, e1]; rfl, by rw [f2, e2]; rfl,
